@@ -38,6 +38,35 @@ class RowCap(R.RowFilter):
 
 
 @dataclasses.dataclass(frozen=True)
+class Alternate(R.RowFilter):
+    """Keeps every other row (the 1st, 3rd, ...), declared order-dependent but NOT count-dependent.
+
+    NOT USED by any registered workload: the declaration is inconsistent with what the library's own
+    rules assume (`Selection.commute` moves a selection past anything that is not count-dependent,
+    which is wrong for a filter whose decision depends on the rows that precede a row), so C04 raises
+    an alarm on the unchanged tree as soon as this operation takes part.  Kept for the record of
+    seeded change C04-r11 (DESIGN.md section 10)."""
+
+    @property
+    def is_empty_invariant(self) -> bool:
+        return True
+
+    @property
+    def is_order_dependent(self) -> bool:
+        return True
+
+    @property
+    def is_count_dependent(self) -> bool:
+        return False
+
+    def __str__(self) -> str:
+        return "alternate"
+
+    def vmon_apply(self, rows):
+        return list(rows)[::2]
+
+
+@dataclasses.dataclass(frozen=True)
 class Reverse(R.Reordering):
     """Reverses the row order (a reordering that depends on the incoming order)."""
 
